@@ -3,6 +3,7 @@
 -/
 import CedarProofs.CacheLemmas
 import CedarProofs.Prefix
+import CedarProofs.Keyed
 
 namespace Cedar.C06
 open Cedar Cedar.SC
@@ -274,5 +275,75 @@ example : (serverResume cache0 1000 "s1".toList true 5).2 = (.authorized 5, some
 example : (serverResume cache0 1000 "s2".toList true 5).2 = (.sidNotFound, none) := by decide
 example : (serverResume cache0 3000 "s1".toList false 5).2 = (.none, none) := by decide
 example : (serverResume (cache0.invalidate "s1".toList) 1000 "s1".toList true 5).2 = (.sidNotFound, none) := by decide
+
+/-! ### Wire-level meaning of a successful resumption
+
+Clause: "a requester without the key can neither get a single byte accepted as application data nor
+read anything sent to it; from the resumption reply onwards every byte on that connection is
+protected by that key". `resume_needs_key` only reads fields of the outcome record; the theorem
+below ties the outcome to the Stream model. -/
+
+/-- **resumed_connection_protected**: let `serverResume` succeed with outcome `o`. Then `o.key` is
+    the key `k` of the cached entry, and the server's stream as `handleSessionResumption` leaves it
+    (`serverAfterResume`: request bytes received in clear, the reply — if one was asked for — sent in
+    clear, then `setupStreamEncryption` with `k`), driven by ANY later history of application
+    operations `hist` (sends, buffered writes, secrets, receives of arbitrary frames, crypto-on;
+    everything but an explicit `SetCryptoMode(false)` by the application itself), satisfies
+    `ProtectedBy … k`:
+    (a) every frame accepted by `ReceiveFrameWithEnd`, `ReceiveFrame` or `GetSecret` is a genuine
+        seal under `k` and the bytes handed over are its plaintext; a frame whose body is raw bytes
+        or a seal under any other key is an error in those and in `ReceiveCompleteMessage`,
+        `readNextFrame`/`StartMessageRead` and the typed layer's frame loop;
+    (b) every frame the server put on the wire during `hist` is a non-empty `.ct` sealed under `k`,
+        and no stream that does not hold `k` — in any state — gets anything out of it. -/
+theorem resumed_connection_protected (c : Cache) (now : Nat) (sid : Str) (want : Bool) (nonce : Nat) (ra : Bool)
+    (c' : Cache) (reply : ResumeReply) (o : ResumeOutcome)
+    (h : serverResume c now sid want nonce ra = (c', reply, some o))
+    (req : Bytes) (replyBytes : Option Bytes) (iv : IV) (hist : List Op)
+    (hon : ∀ op ∈ hist, op.keepsCrypto = true) :
+    ∃ k e, c.get sid = some e ∧ e.key = some k ∧ o.key = some k ∧ o.encrypted = true ∧
+      ProtectedBy ((serverAfterResume req replyBytes k iv).run hist).1
+                  ((serverAfterResume req replyBytes k iv).run hist).2 k := by
+  obtain ⟨e, hg, _, hks, hok, hoe, _⟩ := resume_needs_key c now sid want nonce ra c' reply o h
+  cases hk : e.key with
+  | none => simp [hk] at hks
+  | some k =>
+    refine ⟨k, e, hg, hk, by rw [hok, hk], hoe, ?_⟩
+    exact run_protected _ k (setKey_keyed _ k iv) hist hon
+
+/-- corollary in the words of the clause: on the resumed connection a requester that does not hold
+    the session key (all it can make are raw bytes and seals under its own keys `k' ≠ k`) gets no
+    frame accepted at any point, and opens nothing the server sends. -/
+theorem resumed_keyless_requester_locked_out (c : Cache) (now : Nat) (sid : Str) (want : Bool) (nonce : Nat) (ra : Bool)
+    (c' : Cache) (reply : ResumeReply) (o : ResumeOutcome)
+    (h : serverResume c now sid want nonce ra = (c', reply, some o))
+    (req : Bytes) (replyBytes : Option Bytes) (iv : IV) (hist : List Op)
+    (hon : ∀ op ∈ hist, op.keepsCrypto = true) :
+    ∃ k, o.key = some k ∧
+      (∀ g : WireFrame, (∀ ivo sl, g.body = .ct ivo sl → sl.key ≠ k) →
+         ∃ e, ((serverAfterResume req replyBytes k iv).run hist).1.recvFrameWithEnd g = .error e) ∧
+      (∀ f ∈ ((serverAfterResume req replyBytes k iv).run hist).2, ∀ r : Stream, r.key ≠ some k →
+         ∃ e, r.recvFrameWithEnd f = .error e) := by
+  obtain ⟨k, e, _, _, hok, _, hp⟩ :=
+    resumed_connection_protected c now sid want nonce ra c' reply o h req replyBytes iv hist hon
+  exact ⟨k, hok, fun g hg => (hp.rejects g hg).1, fun f hf r hr => (hp.sent_opaque f hf r hr).1⟩
+
+/-! Non-vacuity: the hypotheses are met by `cache0`/"s1" (key 7) and a history with sends, a secret
+    and a received junk frame; the server emits two frames in it; the key holder's first frame IS
+    accepted on that stream while the same frame sealed under key 8 is not. -/
+private def histDemo : List Op := [.send [1] 1, .recv ⟨1, 1, .raw [0]⟩, .secret [2], .crypto true]
+private def keyHolderFrame (k : Nat) : WireFrame :=
+  ⟨0, 33, .ct (some ⟨5, []⟩) ⟨k, (⟨5, []⟩ : IV).nonce 0, ⟨some (.H [1, 2, 3], .H [9]), 0, 33⟩, [42]⟩⟩
+
+example : ∃ k, (some k = some 7) ∧
+    ProtectedBy ((serverAfterResume [1,2,3] (some [9]) k ⟨2, []⟩).run histDemo).1
+                ((serverAfterResume [1,2,3] (some [9]) k ⟨2, []⟩).run histDemo).2 k := by
+  obtain ⟨k, e, hg, hk, hok, _, hp⟩ := resumed_connection_protected cache0 1000 "s1".toList true 5 false
+    _ _ _ (rfl) [1,2,3] (some [9]) ⟨2, []⟩ histDemo (by decide)
+  have h7 : some 7 = some k := hok
+  exact ⟨k, h7.symm, hp⟩
+example : ((serverAfterResume [1,2,3] (some [9]) 7 ⟨2, []⟩).run histDemo).2.length = 2 := by decide
+example : (((serverAfterResume [1,2,3] (some [9]) 7 ⟨2, []⟩).run histDemo).1.recvFrameWithEnd (keyHolderFrame 7)).toBool = true := by decide
+example : (((serverAfterResume [1,2,3] (some [9]) 7 ⟨2, []⟩).run histDemo).1.recvFrameWithEnd (keyHolderFrame 8)).toBool = false := by decide
 
 end Cedar.C06
